@@ -398,6 +398,60 @@ Proof.
   cbn [canon]. apply array_of_slice; [congruence|exact U].
 Qed.
 
+(* ---------- the `list` field option: the TagList case whatever the first element is ---------- *)
+Definition rtl_ok (t : gtype) : Prop := forall v tr,
+  has_type_l t v = true -> enc_l t v = TOk tr -> wfb tr = true /\ unm tr t = UOk (canon t v).
+
+Lemma list_core e l tr : rt_ok e -> lenN l < 2 ^ 31 -> forallb (has_type e) l = true ->
+  enc_l (YSlice e) (GvList l) = TOk tr ->
+  wfb tr = true /\ seq_len tr = length l /\ unm_base tr (YSlice e) = UOk (GvList (map (canon e) l)).
+Proof.
+  intros IH Hlen Hall He. cbn [enc_l] in He.
+  set (et := match l with x :: _ => get_tag e x | [] => tag_by_ty e end) in *.
+  destruct (tmap (fun x => if get_tag e x =? et then enc e x else TErr) l) as [[ts|]|] eqn:Em; try discriminate.
+  injection He as <-. apply tmap_ok in Em.
+  destruct (list_path e l et IH ts Em Hall) as (P1 & P2 & P3).
+  cbn [wfb seq_len]. repeat split; auto.
+  - rewrite P1. unfold lenN in *. rewrite P3. rewrite !andb_true_iff. repeat split.
+    + apply N.leb_le. subst et. destruct l as [|x l'].
+      * apply tag_by_ty_le.
+      * inversion Em as [|? t0 ? ? Hx0 ?]; subst. destruct (N.eqb_spec (get_tag e x) (get_tag e x)); [|congruence].
+        cbn [forallb] in Hall. apply andb_true_iff in Hall.
+        destruct (IH x t0 (proj1 Hall) Hx0) as (_ & T & _). rewrite <- T. apply tag_id_range.
+    + destruct ts as [|t0 ts']; [reflexivity|]. apply N.leb_le. cbn [forallb] in P1.
+      rewrite !andb_true_iff in P1. destruct P1 as [[T _] _]. apply N.eqb_eq in T. rewrite <- T. apply tag_id_range.
+    + now apply N.ltb_lt.
+  - cbn [unm_base].
+    change (fun x : tag => via (unm_base x (ptr_base e)) e) with (fun x : tag => unm x e).
+    rewrite (umap_ok _ _ _ P2). reflexivity.
+Qed.
+
+Lemma rtl_slice e : rt_ok e -> rtl_ok (YSlice e).
+Proof.
+  intros IH v tr Ht He. destruct v as [| | | | |l| | | | | |]; try discriminate.
+  cbn [has_type_l] in Ht. apply andb_true_iff in Ht. destruct Ht as [H1 H3]. apply N.ltb_lt in H1.
+  destruct (list_core e l tr IH H1 H3 He) as (W & _ & U). rewrite unm_nonptr by reflexivity. split; auto.
+Qed.
+Lemma enc_l_array n e v : enc_l (YArray n e) v = enc_l (YSlice e) v.
+Proof. destruct v; reflexivity. Qed.
+Lemma rtl_array n e : rt_ok e -> rtl_ok (YArray n e).
+Proof.
+  intros IH v tr Ht He. destruct v as [| | | | |l| | | | | |]; try discriminate.
+  cbn [has_type_l] in Ht. rewrite !andb_true_iff in Ht. destruct Ht as [[H0 H1] H3].
+  apply N.ltb_lt in H1. apply Nat.eqb_eq in H0. rewrite enc_l_array in He.
+  destruct (list_core e l tr IH H1 H3 He) as (W & L & U). rewrite unm_nonptr by reflexivity. split; auto.
+  cbn [canon]. apply array_of_slice; [congruence|exact U].
+Qed.
+Lemma rtl_ptr e : rtl_ok e -> rtl_ok (YPtr e).
+Proof.
+  intros IH v tr Ht He. destruct v as [| | | | | | | |o| | |]; try discriminate. rewrite unm_ptr.
+  destruct o as [x|]; cbn [has_type_l enc_l canon] in *.
+  - destruct (IH x tr Ht He) as (W & U). rewrite U. split; auto.
+  - destruct (IH (zero e) tr Ht He) as (W & U). rewrite U. split; auto.
+Qed.
+Lemma rtl_none t : (match t with YSlice _ | YArray _ _ | YPtr _ | YIface => False | _ => True end) -> rtl_ok t.
+Proof. intros H v tr Ht He. destruct t; try contradiction; cbn [enc_l] in He; discriminate. Qed.
+
 (* ---------- association lists ---------- *)
 Lemma beqb_spec a : forall b, bytes_eqb a b = true <-> a = b.
 Proof.
